@@ -155,8 +155,9 @@ type mctx struct {
 	// the slowest guarded call of the mutant (observation)
 	slowSec              float64
 	slowEntry, slowStack string
-	class                string      // when set, replaces the entry's class in keys (classes that depend on the transaction)
-	created              *createdIDs // ids of the elements the block creates, by kind (material for ids of another kind)
+	preChecked           map[int][]string // version -> members the overflow pre-check covers (from the catalogue)
+	class                string           // when set, replaces the entry's class in keys (classes that depend on the transaction)
+	created              *createdIDs      // ids of the elements the block creates, by kind (material for ids of another kind)
 }
 
 // createdIDs: elements created by the base block, in creation order.
@@ -477,6 +478,8 @@ func (m *mctx) apply(e ext) bool {
 		}
 	}
 	switch e.Fam {
+	case "wrap":
+		return m.applyWrap(e)
 	case "complement":
 		return m.applyComplement(e)
 	case "confuse":
@@ -634,8 +637,8 @@ func (m *mctx) apply(e ext) bool {
 			idx = []uint64{0, 0}
 		case "unsorted":
 			idx = []uint64{1, 0}
-		case "16000x0":
-			idx = make([]uint64, 16000)
+		case "12000x0":
+			idx = make([]uint64, 12000)
 		case "all+len":
 			for i := 0; i <= n; i++ {
 				idx = append(idx, uint64(i))
@@ -916,6 +919,26 @@ func (m *mctx) applyComplement(e ext) bool {
 		return false
 	}
 	slot := slots[0]
+	variant := e.X
+	if i := strings.Index(variant, ",others="); i > 0 {
+		// every other pre-checked member first becomes 0 / 1
+		v := types.ZeroCurrency
+		if variant[i:] == ",others=1" {
+			v = types.NewCurrency64(1)
+		}
+		variant = variant[:i]
+		for _, name := range m.preChecked[e.Ver] {
+			if name == "fee" && e.Ver == 1 && e.T != "fee" {
+				continue // curSlots would create fee entries where there are none
+			}
+			for _, s := range m.curSlots(name) {
+				if s != slot {
+					*s = v
+				}
+			}
+		}
+		m.unknown = ""
+	}
 	max := types.MaxCurrency.Big()
 	fits := func(v *big.Int) bool {
 		*slot = types.NewCurrency(new(big.Int).And(v, new(big.Int).SetUint64(math.MaxUint64)).Uint64(), new(big.Int).Rsh(v, 64).Uint64())
@@ -936,7 +959,7 @@ func (m *mctx) applyComplement(e ext) bool {
 		}
 	}
 	v := lo
-	switch e.X {
+	switch variant {
 	case "rest-1":
 		if v.Sign() == 0 {
 			return false
@@ -954,6 +977,85 @@ func (m *mctx) applyComplement(e ext) bool {
 	}
 	*slot = types.NewCurrency(new(big.Int).And(v, new(big.Int).SetUint64(math.MaxUint64)).Uint64(), new(big.Int).Rsh(v, 64).Uint64())
 	return true
+}
+
+// applyWrap makes two entries of a uint64-summed member wrap to the honest total: (x, honest - x mod 2^64).
+func (m *mctx) applyWrap(e ext) bool {
+	x, ok := map[string]uint64{"1": 1, "2^32": 1 << 32, "2^63": 1 << 63, "2^64-2": math.MaxUint64 - 1, "2^64-1": math.MaxUint64}[e.X]
+	if !ok {
+		m.unknown = "wrap value " + e.X
+		return false
+	}
+	pairOuts := func(os *[]types.SiafundOutput) bool {
+		if len(*os) == 0 {
+			return false
+		}
+		o := append([]types.SiafundOutput{}, (*os)...)
+		if len(o) == 1 {
+			o = append(o, types.SiafundOutput{Address: o[0].Address})
+		}
+		honest := o[0].Value + o[1].Value
+		o[0].Value, o[1].Value = x, honest-x // uint64 arithmetic: the pair wraps to the honest sum
+		*os = o
+		return true
+	}
+	switch e.T {
+	case "sfo.val":
+		if txn := m.v1(); txn != nil {
+			return pairOuts(&txn.SiafundOutputs)
+		}
+		if txn := m.v2(); txn != nil {
+			return pairOuts(&txn.SiafundOutputs)
+		}
+		return false
+	case "supp.sfi.val":
+		ts := m.ts()
+		if ts == nil || len(ts.SiafundInputs) == 0 {
+			return false
+		}
+		m.noDirect = true
+		l := append([]types.SiafundElement{}, ts.SiafundInputs...)
+		if len(l) == 1 {
+			l = append(l, l[0].Copy())
+		}
+		honest := l[0].SiafundOutput.Value + l[1].SiafundOutput.Value
+		l[0].SiafundOutput.Value, l[1].SiafundOutput.Value = x, honest-x
+		ts.SiafundInputs = l
+		return true
+	case "sfi.parent.val":
+		txn := m.v2()
+		if txn == nil || len(txn.SiafundInputs) == 0 {
+			return false
+		}
+		in := append([]types.V2SiafundInput{}, txn.SiafundInputs...)
+		honest := in[0].Parent.SiafundOutput.Value
+		if len(in) == 1 {
+			// a second parent: another siafund output this block creates (an ephemeral one when the first is), else an unknown one
+			second := in[0]
+			second.Parent = in[0].Parent.Copy()
+			second.Parent.ID = types.SiafundOutputID(hashN(123))
+			if m.created != nil {
+				for _, id := range m.created.sf {
+					if types.SiafundOutputID(id) != in[0].Parent.ID {
+						second.Parent.ID = types.SiafundOutputID(id)
+						break
+					}
+				}
+			}
+			second.Parent.SiafundOutput.Value = 0
+			in = append(in, second)
+		} else {
+			honest += in[1].Parent.SiafundOutput.Value
+		}
+		in[0].Parent = in[0].Parent.Copy()
+		in[1].Parent = in[1].Parent.Copy()
+		in[0].Parent.SiafundOutput.Value, in[1].Parent.SiafundOutput.Value = x, honest-x
+		in[0].Parent.ClaimStart, in[1].Parent.ClaimStart = types.ZeroCurrency, types.ZeroCurrency
+		txn.SiafundInputs = in
+		return true
+	}
+	m.unknown = "wrap member " + e.T
+	return false
 }
 
 // decodable reports whether the target transaction of the mutant is a value a decoder of core hands over: it survives a round
